@@ -21,6 +21,10 @@ def c09_ops(rng, tier):
     for _ in range(n // 6):
         y0 = rng.randint(1, 9900)
         L.append("ec.search %d %d %d %d %d %d" % (rng.randint(0, 59), rng.randint(0, 59), rng.randint(0, 59), rng.randint(0, 59), y0, y0 + rng.choice([0, 1, 59, 60, 61, 130])))
+    # the eight characters / pillars reported by a LunarHour that has a HISTORY (memoised views filled, stepped, cloned)
+    # must be those of a freshly built value (per-object memo histories, see props_c10.py)
+    from props_c10 import c10_ops
+    L += [l for l in c10_ops(rng, tier) if l.startswith("c10.objhist 0 ")][:(500 if tier == "quick" else 5000)]
     return L
 
 
@@ -119,7 +123,8 @@ PROP = {
     "id": "C09",
     "thm_module": "Tyme.Thm.C09",
     "thm_file": "Tyme/Thm/C09.lean",
-    "lean_targets": ["Tyme.Thm.C09"],
+    "lean_targets": ["Tyme.Thm.C09", "Tyme.Thm.C09b"],
+    "fact_files": [("Tyme/Thm/C09b.lean", "Tyme.Thm.C09b")],
     "audit_files": ["Tyme/Lemmas/Cycle.lean", "Tyme/Model/SixtyCycle.lean", "Tyme/Model/EightChar.lean"],
     "gen": [gen_eph],
     "streams": [
